@@ -980,10 +980,12 @@ class SetIndex(BaseSetIndexSortValues):
 
         # TODO, handle setting index with other frame
         # A negative n takes all but the last / first rows of a partition: these
-        # are not the first / last rows of the whole frame
+        # are not the first / last rows of the whole frame. The same holds for
+        # the rows of a partition whose boundaries are given by the user
         if (
             isinstance(parent, Head)
             and parent.n >= 0
+            and self.user_divisions is None
             and isinstance(self._other, (int, str))
             and self._other in self.frame.columns
         ):
@@ -993,6 +995,7 @@ class SetIndex(BaseSetIndexSortValues):
         if (
             isinstance(parent, Tail)
             and parent.n >= 0
+            and self.user_divisions is None
             and isinstance(self._other, (int, str))
             and self._other in self.frame.columns
         ):
